@@ -186,9 +186,8 @@ def rule_E3(ctx, R):
         if "inputs" not in f:
             continue
         ti = f.get("trait_item") or ""
-        if "TRY" in R.roles(f) or ti in ("lockable::RawLock::raw_try_write", "lockable::RawLock::raw_try_read") \
-                or (ctx.A.role_of(f["path"]) in ("ordered_try_write", "ordered_try_read")):
-            fns.append(f)
+        if "TRY" in R.roles(f) or ti in ("lockable::RawLock::raw_try_write", "lockable::RawLock::raw_try_read"):
+            fns.append(f)     # (crate-private helpers of these are covered through the call graph)
     # helper functions returning bool that are built from HL tries count too (discovered, not named)
     for f in fns:
         if f["id"] in block:
@@ -196,7 +195,7 @@ def rule_E3(ctx, R):
             res.bad(Violation("E3", f["path"], "blocking", "try-style operation can wait: call path %s" % " -> ".join(p), *_floc(f)))
         else:
             res.ok(f["path"])
-    res.need(42, "try-style functions")
+    res.need(40, "try-style functions")
     return res
 
 
@@ -220,76 +219,60 @@ def rule_K2(ctx, R):
         else:
             res.bad(Violation("K2", s["path"], "thread_local", "the key flag %s is a process-wide static: one thread's key "
                               "blocks or unlocks another's" % s["path"], s["span"]["file"], s["span"]["line"]))
-    # who touches the flag field
-    touching = {}
-    for f in F.fns:
-        m = f.get("mir")
-        if not m:
-            continue
-        for b in m["blocks"]:
-            for s in b["stmts"]:
-                if s["k"] == "assign" and s["rv"]["k"] in ("ref", "rawptr", "use"):
-                    pl = s["rv"].get("place") or (s["rv"].get("op") or {}).get("place")
-                    if not pl or not any(isinstance(p, int) for p in pl["p"]):
-                        continue
-                    lt = m["locals"][pl["l"]]["ty"]
-                    base = lt["ty"] if lt["k"] in ("ref", "ptr") else lt
-                    if base["k"] == "adt" and base["path"] == KC:
-                        touching[f["id"]] = f
-    setters, clearers = [], []
-    for f in touching.values():
-        paths, err, I = ctx.paths(f)
-        if err:
-            res.undecided(f["path"], "analysis", err, *_floc(f))
-            continue
-        kinds = set()
-        for p in paths:
-            for e in p.events:
-                if e["k"] == "CELL_REPLACE":
-                    kinds.add(("replace", e["new"]))
-                    # the returned value must be the negated old value
-                    v = p.value
-                    if p.kind == "ret" and not (v and v[0] == "op" and v[2] and v[2][0] == "not" and v[2][1] == e["old"]):
-                        if not (v == ("const", True) and e["old"] == ("const", False)):
-                            res.bad(Violation("K2", f["path"], "test-and-set", "flag is set but success is not decided by "
-                                              "the previous value of the flag", *_floc(f)))
-                elif e["k"] == "CELL_SET":
-                    kinds.add(("set", e["val"]))
-        if ("replace", ("const", True)) in kinds and len(kinds) == 1:
-            setters.append(f)
-            res.ok("%s: test-and-set(true)" % f["path"])
-        elif ("set", ("const", False)) in kinds and len(kinds) == 1:
-            clearers.append(f)
-            if not f.get("unsafe"):
-                res.bad(Violation("K2", f["path"], "clear-is-safe", "the function clearing the key flag is safe to call", *_floc(f)))
-            else:
-                res.ok("%s: clear" % f["path"])
-        elif kinds:
-            res.bad(Violation("K2", f["path"], "flag-access", "unexpected access to the key flag: %s" % sorted(map(str, kinds)), *_floc(f)))
-    if len(setters) != 1 or len(clearers) != 1:
-        res.bad(Violation("K2", KC, "protocol", "expected one setter and one clearer of the key flag, found %d and %d"
-                          % (len(setters), len(clearers))))
-    # the clearer is called only from Drop for ThreadKey
+    # who writes the flag: decided on the paths of every entry function (the cell type's private methods, closures passed to
+    # `LocalKey::with`, associated-function wrappers ... are all seen inlined)
+    from rules_ts import entry_fns
+    from rules_ts2 import key_construction_sites, observed_clear_then_set
+    from interp import val_contains
     a = F.adts.get(KEY)
     dropfn = F.fn(a["drop_fn"]) if a and a.get("drop_fn") else None
     if dropfn is None:
         res.bad(Violation("K2", KEY, "drop", "ThreadKey has no Drop impl: a dropped key can never be re-obtained / flag never cleared"))
-    for c in clearers:
-        callers = [fid for fid, ss in cg.succ.items() if c["id"] in ss]
-        for fid in callers:
-            top = F.top_fn(F.fn_by_id[fid])
-            if dropfn is None or top["id"] != dropfn["id"]:
-                res.bad(Violation("K2", top["path"], "clear-caller", "the key flag is cleared from %s, not only from "
-                                  "ThreadKey's Drop: a second key becomes obtainable while the first is alive" % top["path"],
-                                  *_floc(top)))
-            else:
-                res.ok("clearer called from Drop for ThreadKey")
-    for s in setters:
-        callers = set(F.top_fn(F.fn_by_id[fid])["path"] for fid, ss in cg.succ.items() if s["id"] in ss)
-        from rules_ts2 import key_construction_sites
-        ctor = set(F.top_fn(f)["path"] for f, _ in key_construction_sites(ctx))
-        if callers - ctor:
-            res.bad(Violation("K2", s["path"], "set-caller", "flag test-and-set called outside the key constructor: %s" % sorted(callers - ctor)))
+
+    def flag_writes(p, I):
+        out = []
+        for e in p.events:
+            if e["k"] in ("CELL_SET", "CELL_REPLACE"):
+                root = e["recv"].split(".")[0]
+                t = I.optype.get(root)
+                if t is not None and any(x["k"] == "adt" and x["path"] == KC for x in ty_walk(t)):
+                    out.append(e)
+        return out
+    nset = nclear = 0
+    for f in entry_fns(ctx):
+        paths, err, I = ctx.paths(f)
+        if err or not paths:
+            continue
+        is_drop = dropfn is not None and f["id"] == dropfn["id"]
+        for p in paths:
+            ws = flag_writes(p, I)
+            if not ws:
+                continue
+            clears = [e for e in ws if (e.get("val") or e.get("new")) == ("const", False)]
+            sets = [e for e in ws if (e.get("val") or e.get("new")) == ("const", True)]
+            other = [e for e in ws if e not in clears and e not in sets]
+            bad = None
+            if other:
+                bad = ("flag-access", "the key flag is written with a value that is not a literal")
+            elif clears and not is_drop:
+                bad = ("clear-caller", "the key flag is cleared in %s, not only in ThreadKey's Drop: a second key becomes obtainable "
+                                       "while the first is alive" % f["path"])
+            elif sets and is_drop:
+                bad = ("flag-access", "ThreadKey's Drop sets the key flag")
+            elif sets:
+                built = p.kind == "ret" and p.value is not None and val_contains(p.value, lambda x: x[0] == "agg" and x[2] == KEY)
+                if built and not observed_clear_then_set(p):
+                    bad = ("test-and-set", "flag is set but success is not decided by the previous value of the flag")
+                if not any(val_contains(q.value, lambda x: x[0] == "agg" and x[2] == KEY) for q in paths if q.kind == "ret" and q.value):
+                    bad = ("set-caller", "the key flag is set by %s, which never yields a key" % f["path"])
+            if bad:
+                res.bad(Violation("K2", f["path"], bad[0], bad[1] + " (path: %s)" % p.trace()[:200], *_floc(f)))
+                break
+            nset += len(sets)
+            nclear += len(clears)
+        else:
+            if any(flag_writes(p, I) for p in paths):
+                res.ok("%s: flag writes conform" % f["path"])
     if dropfn is not None:
         paths, err, I = ctx.paths(dropfn)
         if err:
@@ -298,7 +281,7 @@ def rule_K2(ctx, R):
             ok = True
             for p in paths:
                 if p.kind == "ret":
-                    sets = [e for e in p.ev("CELL_SET") if e["val"] == ("const", False)]
+                    sets = [e for e in flag_writes(p, I) if (e.get("val") or e.get("new")) == ("const", False)]
                     if len(sets) != 1:
                         ok = False
                         res.bad(Violation("K2", dropfn["path"], "drop-clears-once", "Drop for ThreadKey clears the flag %d "
@@ -306,5 +289,7 @@ def rule_K2(ctx, R):
                         break
             if ok:
                 res.ok("Drop for ThreadKey clears the flag exactly once")
-    res.need(5, "flag protocol facts")
+    if nset == 0:
+        res.bad(Violation("K2", KC, "protocol", "no entry function sets the key flag: every thread can obtain any number of keys"))
+    res.need(3, "flag protocol facts")
     return res
